@@ -166,7 +166,7 @@ class Abstractor:
                     self._expr(child)
             if isinstance(s, ast.Assign) and isinstance(s.value, ast.Call):
                 f = s.value.func
-                direct = (isinstance(f, ast.Attribute) and self.is_tree(f.value)) or (
+                direct = (isinstance(f, ast.Attribute) and self.is_tree(f.value) and f.attr not in HARMLESS) or (
                     isinstance(f, ast.Name) and f.id == "iter" and s.value.args and self.is_tree(s.value.args[0]))
                 for t in s.targets:
                     if isinstance(t, ast.Name):
